@@ -316,9 +316,10 @@ def rounding_table(ck, rule_dir, rule_exh, rule_pass):
     passthrough_seen = False
     for pf in pfs:
         keys_true = []
-        for g in pf.guards:
-            ks = _mode_keys(g[0], mp)
-            if ks is not None and g[1]:
+        from ..common import path_literals
+        for lit, pol in path_literals(pf.guards):
+            ks = _mode_keys(lit, mp)
+            if ks is not None and pol:
                 keys_true = ks
         # which guards are True on this path
         if pf.end == "raise":
